@@ -19,12 +19,26 @@ class Decls:
         self.consts = {}     # name -> sort
         self.funs = {}       # name -> (argsorts, ressort)
         self.axioms = []     # global axioms (about UFs), list of (term, note)
+        self.bound = []      # bound Int variables currently in scope
         self.base_heap = {}  # attr -> name of the initial heap array (shared by all snapshots of a run)
 
     def const(self, base, sort, exact=False):
+        """fresh symbol; inside a quantified body (comprehension / forall) it is a fresh *function* of the
+        bound variables in scope, so that facts about it do not become universally quantified nonsense"""
         name = base if exact else fresh_name(base)
+        if self.bound and not exact:
+            self.funs[name] = (tuple('Int' for _ in self.bound), sort)
+            return '(%s %s)' % (name, ' '.join(self.bound))
         self.consts[name] = sort
         return name
+
+    def global_const(self, base, sort):
+        name = fresh_name(base)
+        self.consts[name] = sort
+        return name
+
+    def bound_var(self, base):
+        return fresh_name(base)
 
     def fun(self, name, argsorts, ressort):
         self.funs[name] = (tuple(argsorts), ressort)
@@ -109,7 +123,7 @@ class State:
     def heap_arr(self, attr):
         if attr not in self.heap:
             if attr not in self.decls.base_heap:
-                self.decls.base_heap[attr] = self.decls.const('H_' + attr, '(Array Int Val)')
+                self.decls.base_heap[attr] = self.decls.global_const('H_' + attr, '(Array Int Val)')
             self.heap[attr] = self.decls.base_heap[attr]
             self.heapver.setdefault(attr, 0)
         return self.heap[attr]
